@@ -326,7 +326,7 @@ def run(pid, tier, seed, a):
         for ob, q, s in sat_obs:
             if ob["target"] == "complete_iteration":
                 rp = replay_c18(pid, ctx, ob, q, solver, a)
-            elif ob["kind"] == "spec":
+            elif ob["kind"] == "spec" or ob["target"] in ("id_closures_total",):
                 rp = replay_spec(pid, ctx, ob, q, solver, a)
             else:
                 rp = replay_candidate(pid, ctx, ob, q, solver, a)
